@@ -142,5 +142,21 @@ Theorem C13_healthy_is_answered_small_e : forall e0 i ra w m n b ts,
 Proof. exact P_Sgp4Answered.answered_when_healthy3. Qed.
 Print Assumptions C13_healthy_is_answered_small_e.
 
+(* ... and in terms of the INPUT only: an accepted near-earth element set with e0 <= 0.39 (e0 > 1e-4), resp. any accepted set with
+   e0 <= 1e-4, is answered at its epoch, and at every time when it is drag-free (B* = 0): there a = a0'', e = e0, and the
+   constructor's perigee guard makes the orbit healthy *)
+From PyOrb.proofs Require P_Sgp4AnsweredEpoch.
+Theorem C13_answered_at_epoch_or_drag_free : forall e0 i ra w m n b ts,
+  gen_init_outcome e0 i ra w m n b = InitMode NearNorm 1 -> b = 0 \/ ts = 0 -> e0 <= 39 / 100 ->
+  exists j, (j <= 5)%nat /\ gen_nn1_prop_outcome e0 i ra w m n b ts = PropOk j.
+Proof. exact P_Sgp4AnsweredEpoch.answered_when_frozen. Qed.
+Print Assumptions C13_answered_at_epoch_or_drag_free.
+
+Theorem C13_answered_at_epoch_or_drag_free_small_e : forall e0 i ra w m n b ts,
+  gen_init_outcome e0 i ra w m n b = InitMode NearNorm 3 -> b = 0 \/ ts = 0 ->
+  exists j, (j <= 5)%nat /\ gen_nn3_prop_outcome e0 i ra w m n b ts = PropOk j.
+Proof. exact P_Sgp4AnsweredEpoch.answered_when_frozen3. Qed.
+Print Assumptions C13_answered_at_epoch_or_drag_free_small_e.
+
 Example C13_inhabited : elements_in_range (6703 / 10000000) (516416 / 10000) 0 0 0 (1572125391 / 100000000) 0 -> True.
 Proof. intros _. exact I. Qed.
